@@ -158,7 +158,10 @@ def build_operator(od, domain):
             M = rng.uniform(0.1, 1.0, size=(int(od['m']), n))
         else:
             M = matrix_from_svals(int(od['m']), n, od['svals'], od['seed'])
-        ran = odl.rn(M.shape[0], **_tensor_weight_kw(domain))
+        kw = _tensor_weight_kw(domain)
+        if od.get('range_weight') is not None:
+            kw = {'weighting': float(od['range_weight'])}
+        ran = odl.rn(M.shape[0], **kw)
         return odl.MatrixOperator(M, domain=domain, range=ran)
     if kind == 'identity':
         return odl.IdentityOperator(domain)
@@ -167,7 +170,9 @@ def build_operator(od, domain):
     if kind == 'multiply':
         rng = np.random.RandomState(int(od['seed']) % (2 ** 32))
         n = flat.rdim(domain)
-        vec = np.round(rng.uniform(0.3, 2.0, n) * rng.choice([-1, 1], n), 3)
+        lo_ = 0.6 if od.get('narrow') else 0.3
+        vec = np.round(rng.uniform(lo_, 1.8 if od.get('narrow') else 2.0, n)
+                       * rng.choice([-1, 1], n), 3)
         if od.get('positive'):
             vec = np.abs(vec)
         return odl.MultiplyOperator(unflat(vec, domain), domain=domain,
@@ -399,10 +404,11 @@ def ref_subdiff(fd, data, space, dY, z, delta=0.0):
         return SetDesc(g, g, lip=lam / gam)
     if kind == 'kl':
         p = data['prior']
-        if np.any(z - delta <= 0):
+        if np.any(z + delta <= 0):
             return SetDesc(np.zeros(n), np.zeros(n), feasible=False)
-        g = lam * (1.0 - p / z)
-        lip = lam * float(np.max(p / (z - delta) ** 2))
+        zs = np.maximum(z, 1e-300)
+        g = lam * (1.0 - p / zs)
+        lip = lam * float(np.max(p / np.maximum(z - delta, 1e-150) ** 2))
         return SetDesc(g, g, lip=lip)
     if kind == 'indzero':
         feas = bool(np.all(np.abs(z - data['b']) <= delta))
@@ -869,7 +875,7 @@ COND_STRATA = [1.0, 3.0, 10.0, 1e2, 1e3, 1e4]
 
 
 def cond_label(c):
-    return 'cond<=1e{}'.format(int(np.ceil(np.log10(max(c, 1.0)) - 1e-9)))
+    return 'cond<=1e{}'.format(int(np.ceil(np.log10(max(c, 1.0)) - 1e-4)))
 
 
 @st.composite
